@@ -72,6 +72,7 @@ type EventPat struct {
 	Args []Expr
 	Cond Expr // optional "when" condition
 	AtLeast bool // "atleastwhen C": emitted whenever C holds, possibly also otherwise
+	Maybe   bool // "maybe =>> e": may or may not be emitted
 	Text string
 }
 
@@ -91,8 +92,10 @@ type LoopSpec struct {
 	Ghosts     []string
 	Updates    []GhostUpdate
 	Emits      []EventPat
+	EmitAlts   [][]EventPat // alternatives: the iteration's events match one of these lists
 	HasEmits   bool
 	EmitTags   []string
+	AssumeNonBlocking string
 }
 
 // GhostUpdate: at the back edge, ghost array G gets G[Key] = Val (when Cond holds).
@@ -151,6 +154,7 @@ type FuncSpec struct {
 	HasEmits   bool
 	EmitTags   []string
 	NoInline   bool
+	AssumeNonBlocking string // declared reason why the channel sends of this function cannot block
 	Goroutine  string
 	OnceBody   bool
 	StrictGhost bool
@@ -190,7 +194,7 @@ type TypeSpec struct {
 	Key        string
 	Guards     []GuardSpec
 	LockLevels map[string]int
-	Immutable  []string
+	Immutable  map[string][]string // field -> functions allowed to write it
 	Confined   map[string]string // field -> owning goroutine
 }
 
@@ -609,7 +613,7 @@ var clauseKeywords = map[string]bool{
 	"emits": true, "complete": true, "disjoint": true, "loop": true, "invariant": true,
 	"calls": true, "property": true, "guarded_by": true, "lock_level": true, "immutable": true,
 	"confined": true, "let": true, "trusted": true, "lemma": true, "decreases": true, "noinline": true,
-	"with": true, "panics": true, "ghost": true, "update": true, "trusted_ensures": true, "goroutine": true, "once_body": true, "preserves": true,
+	"with": true, "panics": true, "ghost": true, "update": true, "trusted_ensures": true, "goroutine": true, "once_body": true, "preserves": true, "assume_nonblocking": true,
 }
 
 type rawClause struct {
@@ -722,6 +726,11 @@ func parseEmits(text string, where string) []EventPat {
 		}
 		var cond Expr
 		atLeast := false
+		maybe := false
+		if strings.HasPrefix(it, "maybe ") {
+			maybe = true
+			it = "when true " + strings.TrimPrefix(it, "maybe ")
+		}
 		if strings.HasPrefix(it, "atleastwhen ") {
 			atLeast = true
 			it = "when " + strings.TrimPrefix(it, "atleastwhen ")
@@ -741,7 +750,7 @@ func parseEmits(text string, where string) []EventPat {
 		if !ok {
 			panic(fmt.Errorf("%s: event pattern must be kind(args): %s", where, it))
 		}
-		out = append(out, EventPat{Kind: c.Fn, Args: c.Args, Cond: cond, Text: it, AtLeast: atLeast})
+		out = append(out, EventPat{Kind: c.Fn, Args: c.Args, Cond: cond, Text: it, AtLeast: atLeast, Maybe: maybe})
 	}
 	return out
 }
@@ -872,7 +881,20 @@ func parseSpecFile(path string, pkg string) (sf *SpecFile, err error) {
 			n, _ := strconv.Atoi(strings.TrimSpace(parts[1]))
 			curT.LockLevels[strings.TrimSpace(parts[0])] = n
 		case "immutable":
-			curT.Immutable = append(curT.Immutable, strings.FieldsFunc(rc.text, func(r rune) bool { return r == ',' || r == ' ' })...)
+			// immutable f1, f2 : Writer1, Writer2   (fields written only by the named functions / on fresh objects)
+			k := strings.Index(rc.text, ":")
+			var writers []string
+			fields := rc.text
+			if k >= 0 {
+				writers = strings.FieldsFunc(rc.text[k+1:], func(r rune) bool { return r == ',' || r == ' ' })
+				fields = rc.text[:k]
+			}
+			if curT.Immutable == nil {
+				curT.Immutable = map[string][]string{}
+			}
+			for _, f := range strings.FieldsFunc(fields, func(r rune) bool { return r == ',' || r == ' ' }) {
+				curT.Immutable[f] = writers
+			}
 		case "confined":
 			k := strings.Index(rc.text, ":")
 			if k < 0 {
@@ -983,6 +1005,8 @@ func parseSpecFile(path string, pkg string) (sf *SpecFile, err error) {
 			cur.Trusted = true
 		case "noinline":
 			cur.NoInline = true
+		case "assume_nonblocking":
+			cur.AssumeNonBlocking = strings.TrimSpace(rc.text)
 		case "once_body":
 			cur.OnceBody = true
 		case "goroutine":
@@ -997,7 +1021,10 @@ func parseSpecFile(path string, pkg string) (sf *SpecFile, err error) {
 		case "emits":
 			tags, body := parseTags(rc.text)
 			if curL != nil {
-				curL.Emits = parseEmits(body, where)
+				for _, alt := range splitAlts(body) {
+					curL.EmitAlts = append(curL.EmitAlts, parseEmits(alt, where))
+				}
+				curL.Emits = curL.EmitAlts[0]
 				curL.HasEmits = true
 				curL.EmitTags = tags
 			} else if curB != nil {
@@ -1070,4 +1097,26 @@ func splitTop(s string, sep byte) []string {
 	}
 	parts = append(parts, s[start:])
 	return parts
+}
+
+// splitAlts splits "[a; b] | [c]" into its bracketed alternatives.
+func splitAlts(text string) []string {
+	var out []string
+	depth := 0
+	start := 0
+	for i := 0; i < len(text); i++ {
+		switch text[i] {
+		case '[', '(', '{':
+			depth++
+		case ']', ')', '}':
+			depth--
+		case '|':
+			if depth == 0 && !(i+1 < len(text) && text[i+1] == '|') && !(i > 0 && text[i-1] == '|') {
+				out = append(out, strings.TrimSpace(text[start:i]))
+				start = i + 1
+			}
+		}
+	}
+	out = append(out, strings.TrimSpace(text[start:]))
+	return out
 }
